@@ -31,8 +31,11 @@ import (
 	"github.com/gauss-project/aurorafs/pkg/encryption"
 	encstore "github.com/gauss-project/aurorafs/pkg/encryption/store"
 	"github.com/gauss-project/aurorafs/pkg/file/pipeline"
+	pbmt "github.com/gauss-project/aurorafs/pkg/file/pipeline/bmt"
 	"github.com/gauss-project/aurorafs/pkg/file/pipeline/builder"
+	penc "github.com/gauss-project/aurorafs/pkg/file/pipeline/encryption"
 	"github.com/gauss-project/aurorafs/pkg/file/pipeline/hashtrie"
+	pstore "github.com/gauss-project/aurorafs/pkg/file/pipeline/store"
 	"github.com/gauss-project/aurorafs/pkg/storage"
 	"golang.org/x/crypto/sha3"
 	"verifharness/hx"
@@ -352,7 +355,10 @@ func doEncPat(jc jcase) {
 
 // ---------------------------------------------------------------- decrypting store
 
-type mapStore struct{ m map[string][]byte }
+type mapStore struct {
+	m     map[string][]byte
+	order []string // addresses in order of first Put
+}
 
 func (s *mapStore) Get(_ context.Context, _ storage.ModeGet, a boson.Address) (boson.Chunk, error) {
 	d, ok := s.m[string(a.Bytes())]
@@ -370,6 +376,7 @@ func (s *mapStore) Put(_ context.Context, _ storage.ModePut, chs ...boson.Chunk)
 			continue
 		}
 		s.m[k] = append([]byte{}, c.Data()...)
+		s.order = append(s.order, k)
 	}
 	return ex, nil
 }
@@ -562,6 +569,13 @@ func (w *recWriter) ChainWrite(p *pipeline.PipeWriteArgs) error {
 	*w.next = id + 1
 	w.spans[id] = sp
 	p.Ref, p.Key = mkRef(id, w.refLen)
+	// like the encryption writer, hand back PROCESSED data: its first 8 bytes are no longer
+	// the plaintext span (Corr.stub_proc); args.Span is left alone
+	d := append([]byte{}, p.Data...)
+	for i := 0; i < 8 && i < len(d); i++ {
+		d[i] ^= 0xA5
+	}
+	p.Data = d
 	return nil
 }
 func (w *recWriter) Sum() ([]byte, error) { return nil, errors.New("not used") }
@@ -695,6 +709,145 @@ func doTrie(jc jcase, toCoq bool) {
 	}
 }
 
+// ---------------------------------------------------------------- hashtrie writer over the REAL encrypted short chain
+
+// doEncTrie wires the writer as builder.newEncryptionPipeline does (production branching and
+// reference size; short pipeline = encryption writer -> bmt writer -> store writer), feeds it leaf
+// REFERENCES with the given spans (no leaf data is needed), and reads every stored intermediate
+// chunk back through the real decrypting store.
+func doEncTrie(jc jcase) {
+	ctx := context.Background()
+	ms := &mapStore{m: map[string][]byte{}}
+	pf := func() pipeline.ChainWriter {
+		lsw := pstore.NewStoreWriter(ctx, ms, storage.ModePutUpload, nil)
+		return penc.NewEncryptionWriter(encryption.NewChunkEncrypter(), pbmt.NewBmtWriter(lsw))
+	}
+	leafSpan := map[string]uint64{}
+	var rootRef []byte
+	class := "ok"
+	total := new(big.Int)
+	nleaves := uint64(0)
+	p, _ := hx.Guard(func() {
+		w := hashtrie.NewHashTrieWriter(boson.ChunkSize, boson.Branches/2, boson.HashSize+encryption.KeyLength, pf)
+		var sp [8]byte
+		for _, r := range jc.Runs {
+			binary.LittleEndian.PutUint64(sp[:], r[0])
+			for i := uint64(0); i < r[1]; i++ {
+				ref := make([]byte, 64)
+				binary.LittleEndian.PutUint64(ref, nleaves)
+				ref[31] = 0x4C
+				for k := 32; k < 64; k++ {
+					ref[k] = 0xEE
+				}
+				leafSpan[string(ref)] = r[0]
+				nleaves++
+				total.Add(total, new(big.Int).SetUint64(r[0]))
+				if err := w.ChainWrite(&pipeline.PipeWriteArgs{Span: sp[:], Ref: ref[:32], Key: ref[32:]}); err != nil {
+					class = "err"
+					return
+				}
+			}
+		}
+		rr, err := w.Sum()
+		if err != nil {
+			class = "err"
+			return
+		}
+		rootRef = append([]byte{}, rr...)
+	})
+	if p {
+		class = "panic"
+	}
+	// read back through the decrypting store, from the root
+	type rb struct{ span, plen uint64 }
+	read := map[string]rb{}
+	g := encstore.New(ms)
+	walkSig := ""
+	var rootSpan uint64
+	var walk func(ref []byte) uint64
+	walk = func(ref []byte) uint64 {
+		if s, ok := leafSpan[string(ref)]; ok {
+			return s
+		}
+		if walkSig != "" {
+			return 0
+		}
+		o := storeGetWith(g, ref)
+		if o.Class != "ok" || len(o.Data) < 8 {
+			walkSig = "enctrie:stored-chunk-not-readable(" + o.Class + ")"
+			return 0
+		}
+		span := binary.LittleEndian.Uint64(o.Data[:8])
+		payload := o.Data[8:]
+		read[string(ref[:32])] = rb{span, uint64(len(payload))}
+		run.OracleChecked(1)
+		if len(payload) == 0 || len(payload)%refSize != 0 {
+			walkSig = "store:intermediate:recovered-length!=stored-length"
+			return 0
+		}
+		if want := refSize * rootRefs(chunkSize, encBranches, span); span <= chunkSize || uint64(len(payload)) != want {
+			walkSig = "store:intermediate:recovered-length!=stored-length"
+			return 0
+		}
+		sum := uint64(0)
+		for i := 0; i < len(payload); i += refSize {
+			sum += walk(payload[i : i+refSize])
+			if walkSig != "" {
+				return 0
+			}
+		}
+		if sum != span {
+			walkSig = "enctrie:stored-span!=sum-of-child-spans"
+		}
+		return span
+	}
+	if class == "ok" {
+		rootSpan = walk(rootRef)
+	}
+	ob := "RErr"
+	switch {
+	case class == "panic":
+		ob = "RPanic"
+	case class == "ok" && walkSig == "" && len(read) == len(ms.order):
+		el := make([]string, 0, len(ms.order))
+		for _, k := range ms.order {
+			e := read[k]
+			el = append(el, hx.CoqPair(hx.CoqN(e.span), hx.CoqN(e.plen)))
+		}
+		ob = hx.CoqApp("ROk", hx.CoqPair(hx.CoqN(rootSpan), hx.CoqList(el, "N * N")))
+	}
+	rl := make([]string, len(jc.Runs))
+	for i, r := range jc.Runs {
+		rl[i] = hx.CoqPair(hx.CoqN(r[0]), hx.CoqNat(int(r[1])))
+	}
+	run.AddCase(hx.CoqApp("CTrieEnc", hx.CoqList(rl, "N * nat"), ob), jc, fmt.Sprintf("enctrie|%v", jc.Runs), len(ms.order) >= 1)
+	run.Hist(fmt.Sprintf("enctrie.chunks=%d.%s", len(ms.order), class))
+	if class != "ok" {
+		return
+	}
+	run.OracleChecked(1)
+	if walkSig != "" {
+		run.Violate(hx.Violation{Sig: walkSig, Detail: fmt.Sprintf("encrypted trie over %d leaf references: an intermediate chunk stored by the writer is not restored by the decrypting store to the span / 64 bytes per reference it was written with", nleaves), Case: jc})
+		return
+	}
+	if len(read) != len(ms.order) {
+		run.Violate(hx.Violation{Sig: "enctrie:stored-chunk-unreachable-from-root", Detail: fmt.Sprintf("%d stored, %d reachable", len(ms.order), len(read)), Case: jc})
+	}
+	if total.BitLen() <= 63 && rootSpan != total.Uint64() {
+		run.Violate(hx.Violation{Sig: "trie:root-span!=file-size", Detail: fmt.Sprintf("root span %d, leaves add up to %d", rootSpan, total.Uint64()), Case: jc, Impl: rootSpan, Want: total.Uint64()})
+	}
+}
+
+func storeGetWith(g storage.Getter, ref []byte) obs {
+	return call(func() ([]byte, error) {
+		ch, err := g.Get(context.Background(), storage.ModeGetRequest, boson.NewAddress(ref))
+		if err != nil {
+			return nil, err
+		}
+		return ch.Data(), nil
+	})
+}
+
 // ---------------------------------------------------------------- real encrypted upload, walked through the decrypting store
 
 func doUpload(jc jcase) {
@@ -794,6 +947,8 @@ func dispatch(jc jcase) {
 		doTrie(jc, true)
 	case "trie-go":
 		doTrie(jc, false)
+	case "enctrie":
+		doEncTrie(jc)
 	case "upload":
 		doUpload(jc)
 	}
@@ -917,7 +1072,7 @@ func randSpan(r *hx.Rand) uint64 {
 
 func main() {
 	run = hx.Start("C08", "Aurora.C08.Corr",
-		"op sequences on encryption.New objects with a toy hash (key/digest/padding/counter classes, lengths at segment and padding boundaries); fabricated encrypted chunks with spans at every level boundary +-1, 2^63, the uint64 wrap region and random magnitudes through the real decrypting store; hashtrie writer runs at branching 2..5 and 4096; real EncryptChunk and encrypted uploads walked through the store. non-trivial = payload longer than one key segment / span above ChunkSize (intermediate chunk) / trie run that stores at least one intermediate chunk; distinct by full input")
+		"op sequences on encryption.New objects with a toy hash (key/digest/padding/counter classes, lengths at segment and padding boundaries); fabricated encrypted chunks with spans at every level boundary +-1, 2^63, the uint64 wrap region and random magnitudes through the real decrypting store; hashtrie writer runs at branching 2..5 and 4096 over a recording stage that processes Data[:8]; the writer at production parameters over the REAL encryption->bmt->store short chain fed up to 3*4096 leaf references (two intermediate levels) with every stored chunk read back through the decrypting store; real EncryptChunk and encrypted uploads walked through the store. non-trivial = payload longer than one key segment / span above ChunkSize (intermediate chunk) / trie run that stores at least one intermediate chunk; distinct by full input")
 	if boson.ChunkSize != chunkSize || encryption.ReferenceSize != refSize || boson.Branches/2 != encBranches {
 		run.Note("format constants differ from the oracle's statement of the format")
 		run.Violate(hx.Violation{Sig: "consts:format-constants-changed", Detail: fmt.Sprintf("ChunkSize=%d ReferenceSize=%d Branches/2=%d", boson.ChunkSize, encryption.ReferenceSize, boson.Branches/2), Case: jcase{Kind: "consts"}})
@@ -969,6 +1124,12 @@ func main() {
 	dispatch(jcase{Kind: "trie", B: 2, RefLen: 64, Runs: [][2]uint64{{128, 128}}})
 	dispatch(jcase{Kind: "trie", B: 2, RefLen: 64, Runs: [][2]uint64{{128, 129}}})
 	dispatch(jcase{Kind: "trie", B: 2, RefLen: 64, Runs: [][2]uint64{{128, 127}, {5, 1}}})
+
+	// encrypted trie over the real short chain: 2 intermediate levels need > 4096 leaf references
+	for _, n := range []uint64{1, 2, 4097, 4098} {
+		dispatch(jcase{Kind: "enctrie", Runs: [][2]uint64{{chunkSize, n - 1}, {1234, 1}}})
+	}
+	dispatch(jcase{Kind: "enctrie", Runs: [][2]uint64{{chunkSize, 2*4096 + 3}}})
 
 	// ---- generated
 	for i := 0; i < run.N(260, 6000); i++ {
@@ -1049,6 +1210,14 @@ func main() {
 			runs = [][2]uint64{{r.U64() >> uint(r.Intn(64)), uint64(1 + r.Intn(6))}, {r.U64() >> uint(r.Intn(64)), uint64(1 + r.Intn(6))}}
 		}
 		dispatch(jcase{Kind: "trie", B: b, RefLen: refLen, Runs: runs})
+	}
+	for i := 0; i < run.N(2, 12); i++ {
+		n := uint64(r.Pick([]int{3, 4096, 4099, 4096 + r.Intn(4096), 2*4096 + 1, 3*4096 - 1, r.Intn(4 * 4096)}))
+		runs := [][2]uint64{{chunkSize, n}}
+		if r.Bool() {
+			runs = append(runs, [2]uint64{uint64(1 + r.Intn(chunkSize)), 1})
+		}
+		dispatch(jcase{Kind: "enctrie", Runs: runs})
 	}
 	// trie at the real encrypted branching
 	for i, n := range []uint64{1, 2, 4095, 4096, 4097, 8193} {
